@@ -942,3 +942,34 @@ OK("c20-benign-ok-compare-swapped", "C20", "sigver.py",
    "        if line == 'OK':\n            return True", "        if 'OK' == line:\n            return True")
 
 VARIANTS[:] = [v for v in VARIANTS if v]
+
+# ------------------------------------------------------------------ engine
+# behaviour-preserving edits of the kinds DESIGN 7.7 normalises; all must be
+# silent (multi-file edits)
+def OKM(id, props, edits):
+    VARIANTS.append(dict(id=id, props=props if isinstance(props, list) else [props],
+                         edits=edits, expect="OK"))
+
+
+OKM("engine-rename-private-method", ["C01", "C03", "C10", "C20"], [
+    ("sigver.py", "def _check_signature(self,", "def _verify_element_signature(self,", 1),
+    ("sigver.py", "self._check_signature(", "self._verify_element_signature(", 3),
+])
+OKM("engine-extract-helper-with-early-return", ["C07"], [
+    ("assertion.py",
+     "        _rest = self.get_attribute_restrictions(sp_entity_id)\n        if _rest:\n            if _ava is None:\n                _ava = ava.copy()\n            _ava = filter_attribute_value_assertions(_ava, _rest)\n        elif _ava is None:\n            _ava = ava.copy()\n",
+     "        _ava = self._apply_restrictions(ava, _ava, sp_entity_id)\n", 1),
+    ("assertion.py",
+     "    def restrict(self, ava, sp_entity_id, metadata=None):\n",
+     "    def _apply_restrictions(self, ava, _ava, sp_entity_id):\n        _rest = self.get_attribute_restrictions(sp_entity_id)\n        if _rest:\n            if _ava is None:\n                _ava = ava.copy()\n            return filter_attribute_value_assertions(_ava, _rest)\n        if _ava is None:\n            return ava.copy()\n        return _ava\n\n    def restrict(self, ava, sp_entity_id, metadata=None):\n", 1),
+])
+OKM("engine-loop-to-comprehension", ["C09", "C16"], [
+    ("mdstore.py",
+     "            res = []\n            for srv in srvs:\n                if srv[\"binding\"] == binding:\n                    res.append(srv)\n",
+     "            res = [s for s in srvs if s[\"binding\"] == binding]\n", 1),
+])
+OKM("engine-ifexp-and-temp", ["C14", "C15"], [
+    ("pack.py",
+     "        if typ == \"SAMLRequest\":\n            _order = REQ_ORDER\n        else:\n            _order = RESP_ORDER\n",
+     "        is_request = typ == \"SAMLRequest\"\n        _order = REQ_ORDER if is_request else RESP_ORDER\n", 1),
+])
